@@ -8,6 +8,7 @@ from fractions import Fraction
 import numpy as np
 
 from harness import util
+from harness.gen import c10_extra as X
 from harness.gen import datasets as G
 from harness.gen import mesh as M
 
@@ -35,7 +36,16 @@ RULE = ('UGRID datasets built from structured meshes (lattice cut-outs mixing tr
         'dimension names (incl. a two-dimension not called Two), node / face coordinates as variables or as xarray '
         'coordinates; plus a malformed stream (bad start_index on each table, wrong dimensions, dangling attribute, '
         'encoded fill value inside / at the border of / outside the index range, non-manifold mesh, missing '
-        'node_coordinates, incomplete edge table). Compared per dataset, in one line: face_node_array, '
+        'node_coordinates, incomplete edge table); plus the STORAGE TYPE of the integer tables (i1 u1 i2 u2 i8, '
+        'thorough also i4 u4; fill value kept or moved to the edge of the type\'s range) x index base x supplied '
+        'tables on the uniform mesh and two lattices, and on two medium meshes (13..14 cells a side, about 200 nodes, '
+        'all quads / quads and triangles) in the narrowest signed and unsigned type that holds their indexes, so '
+        'that index arithmetic in the table\'s own type is at the edge of its range; and a SECOND LOOK: every '
+        'fourth encoding of the product, every sampled case and the NaN form of the medium meshes are normalised '
+        'twice -- after the first look a second dataset object over the same variables (shallow copy, '
+        'assign_attrs, full-slice isel) gets a fresh accessor, reads the tables in the opposite order, and must '
+        'answer exactly what the first did (the model is given the dataset as it was BEFORE emsarray saw it). '
+        'Compared per dataset, in one line: face_node_array, '
         'edge_node_array, face_edge_array, edge_face_array, face_face_array (raw, masked cells as "-", exceptions as '
         'a small enum), the five has_valid_* flags, the five discovered dimension names, the polygon vertex rings '
         'and the stored face centres. The model is fed the dataset handed to emsarray (generator output, never read '
@@ -52,6 +62,10 @@ TRUSTED = [
     'shapely.polygons builds the ring it is given (vertex rings compared exactly)',
     'the order in which emsarray numbers derived edges is read from emsarray and validated by the model '
     '(Ems.Mesh.isRenumbering) before use',
+    'xarray: Dataset.copy() / assign_attrs / isel(slice(None)) hand out new dataset objects over the same '
+    'variable data (what makes the second look a look at the same variables); the integer storage type of a '
+    'table is not part of the model (its tables are unbounded integers): the medium meshes beyond the first '
+    'of each kind are judged by the direct oracle only',
 ]
 ASSUMPTIONS = [
     'connectivity values are integers (or integral floats / NaN); node coordinates are integers',
@@ -110,7 +124,7 @@ def rows_str(rows: list) -> str:
 class Observed:
     """everything the check looks at, taken from the real code once per dataset"""
 
-    def __init__(self, built: G.Built):
+    def __init__(self, built: G.Built, reverse: bool = False):
         self.tables = {}      # key -> rows | None
         self.errs = {}        # key -> 'ERR:…'
         self.dims = []
@@ -118,11 +132,26 @@ class Observed:
         self.poly_err = None
         self.fc = None
         self.exc = {}
+        self.second = None    # a second look at the same variables (`observe`), if the recipe asks for one
         with warnings.catch_warnings():
             warnings.simplefilter('ignore')
-            c = G.bind(built)
-            t = c.topology
-            for key, name in zip(KEYS, ARRAYS):
+            try:
+                c = G.bind(built)
+                t = c.topology
+            except Exception as e:  # noqa: BLE001
+                # whatever the implementation does with a dataset is an observation, never a crash of the run
+                for key in KEYS:
+                    self.tables[key] = None
+                    self.errs[key] = err_str(e)
+                    self.exc[key] = e
+                self.hv = 'EEEEE'
+                self.dims = [err_str(e)] * 5
+                self.poly_err = err_str(e)
+                self.exc['polygons'] = e
+                return
+            # (the second look reads the tables in the opposite order: what one table is must not depend
+            # on which of the others was asked for first)
+            for key, name in (list(zip(KEYS, ARRAYS))[::-1] if reverse else zip(KEYS, ARRAYS)):
                 try:
                     self.tables[key] = table_rows(getattr(t, name))
                 except Exception as e:  # noqa: BLE001
@@ -212,9 +241,40 @@ def oracle(ctx, recipe: dict, built: G.Built, obs: Observed, expect_valid: set) 
     return {sig for sig, _ in found}
 
 
-def findings_of(recipe: dict, expect_valid: set) -> list:
+def build(recipe: dict) -> G.Built:
+    """`mesh.build` plus the storage type of the integer tables (`recipe['c10']['storage']`)"""
     built = M.build(recipe)
-    return findings(recipe, built, Observed(built), expect_valid)
+    st = recipe.get('c10', {}).get('storage')
+    if st:
+        built.extra['storage_cast'] = X.apply_storage(built, st)
+    return built
+
+
+def observe(recipe: dict, built: G.Built | None = None) -> tuple:
+    """(built, what emsarray answers, the model's input line).
+
+    The dataset is described for the model BEFORE emsarray sees it: the model's input is what was handed
+    to emsarray, not what is left of it afterwards. With `recipe['c10']['relook']` the same variables are
+    then looked at a second time through a second dataset object and a fresh accessor (`Observed.second`)."""
+    if built is None:
+        built = build(recipe)
+    pre = M.describe(built.ds, None)
+    obs = Observed(built)
+    how = recipe.get('c10', {}).get('relook')
+    if how:
+        obs.second = Observed(X.second_built(built, how), reverse=True)
+    numbering = obs.numbering()
+    if numbering is None:
+        line = pre
+    else:
+        assert pre.endswith(' N=-')
+        line = pre[:-1] + ('e' if len(numbering) == 0 else ','.join(f'{int(a)}.{int(b)}' for a, b in numbering))
+    return built, obs, line
+
+
+def findings_of(recipe: dict, expect_valid: set) -> list:
+    built, obs, _ = observe(recipe)
+    return findings(recipe, built, obs, expect_valid)
 
 
 def shrink(recipe: dict, sig: str, expect_valid: set) -> dict:
@@ -226,15 +286,25 @@ def shrink(recipe: dict, sig: str, expect_valid: set) -> dict:
             return any(s == sig for s, _ in findings_of(cand, expect_valid & set(cand['enc'].get('tables', []))))
         except Exception:  # noqa: BLE001
             return False
-    progress = True
-    while progress and len(cur['faces']) > 1:
+    # faces: chunks of halving size, then single faces until none can go (a budget keeps a medium mesh
+    # whose failure needs most of its faces from costing minutes)
+    budget = [250]
+    chunk = max(1, len(cur['faces']) // 2)
+    while chunk >= 1 and budget[0] > 0:
         progress = False
-        for i in range(len(cur['faces'])):
+        i = 0
+        while i < len(cur['faces']) and len(cur['faces']) > 1 and budget[0] > 0:
+            rest = cur['faces'][:i] + cur['faces'][i + chunk:]
             cand = {k: v for k, v in cur.items() if k != 'edges'}
-            cand['faces'] = cur['faces'][:i] + cur['faces'][i + 1:]
-            if still(cand):
+            cand['faces'] = rest
+            budget[0] -= 1
+            if rest and still(cand):
                 cur, progress = cand, True
-                break
+            else:
+                i += chunk
+        if chunk == 1 and not progress:
+            break
+        chunk = chunk // 2 if chunk > 1 else 1
     for key, plain in (('transposed', False), ('start_index', 0), ('start_index_spelling', 'int'), ('pad', 0)):
         if cur['enc'].get(key, plain) != plain:
             cand = dict(cur, enc=dict(cur['enc'], **{key: plain}))
@@ -250,6 +320,15 @@ def shrink(recipe: dict, sig: str, expect_valid: set) -> dict:
 def findings(recipe: dict, built: G.Built, obs: Observed, expect_valid: set) -> list:
     found: list = []
     _oracle(recipe, built, obs, expect_valid, found)
+    second = obs.second
+    if second is not None and second.line() != obs.line():
+        # the same variables normalised a second time (another dataset object, a fresh accessor, the tables
+        # asked for in another order): the mesh is the same, so is every answer
+        a, b = obs.line().split('|'), second.line().split('|')
+        diff = [f'{x[:160]}  ->  {y[:160]}' for x, y in zip(a, b) if x != y]
+        found.append(('second-look-differs',
+                      f"normalised again through {recipe.get('c10', {}).get('relook')!r} (same variables, fresh "
+                      f'accessor) the topology is not what it was the first time: {"; ".join(diff[:3])}'))
     return found
 
 
@@ -328,15 +407,19 @@ def _oracle(recipe: dict, built: G.Built, obs: Observed, expect_valid: set, foun
 
     # --- derived tables against the face-node table ----------------------------------------
     en, fe, ef, ff = (obs.tables[k] for k in ('en', 'fe', 'ef', 'ff'))
-    for k in ('en', 'fe', 'ef', 'ff'):
-        if obs.tables[k] is None:
-            fail('derived-table-raises', f'{k} raised {obs.errs[k]} on a valid mesh with an edge dimension')
-            return
+    if en is None:
+        fail('derived-table-raises', f'en raised {obs.errs["en"]} on a valid mesh with an edge dimension')
+        return
     all_pairs = [p for f in faces for p in pairs_of(f)]
     if 'edge_node' not in expect_valid:
+        # (stated before the other tables are looked at: they are built on this one)
         got = [frozenset(r) for r in en]
         if any(len(r) != 2 or None in r for r in en) or len(set(got)) != len(got) or set(got) != set(all_pairs):
-            fail('edges-spec', f'derived edges {rows_str(en)} are not exactly the consecutive node pairs of the faces, each once')
+            fail('edges-spec', f'derived edges {rows_str(en)[:300]} are not exactly the consecutive node pairs of the faces, each once')
+            return
+    for k in ('fe', 'ef', 'ff'):
+        if obs.tables[k] is None:
+            fail('derived-table-raises', f'{k} raised {obs.errs[k]} on a valid mesh with an edge dimension')
             return
     # the edge numbering is pinned by the first of: supplied edge_node, supplied face_edge
     pinned_inconsistent = 'edge_node' not in expect_valid and 'face_edge' in expect_valid
@@ -348,17 +431,20 @@ def _oracle(recipe: dict, built: G.Built, obs: Observed, expect_valid: set, foun
         and all(k is None for k in row[len(f):])
         for f, row in zip(faces, fe))
     # J2: an edge lists exactly the faces that contain it
+    # (which faces have a given node pair as a side, once per occurrence: a plain tabulation of the faces)
+    sides: dict = {}
+    for fi, f in enumerate(faces):
+        for p in pairs_of(f):
+            sides.setdefault(p, []).append(fi)
     j2 = len(ef) == len(en) and all(
-        len(row) == 2 and sorted(compress(row)) == sorted(
-            fi for fi, f in enumerate(faces) for p in pairs_of(f) if p == frozenset(en[k]))
+        len(row) == 2 and sorted(compress(row)) == sorted(sides.get(frozenset(en[k]), []))
         for k, row in enumerate(ef))
-    # J3: adjacency is symmetric and means sharing an edge
-    share = [[sum(1 for p in pairs_of(f) for q in pairs_of(g) if p == q) if fi != gi else 0
-              for gi, g in enumerate(faces)] for fi, f in enumerate(faces)]
+    # J3: adjacency is symmetric and means sharing an edge: g is listed by f once per side they have in
+    # common (a relation that is symmetric by construction)
     j3 = len(ff) == len(faces) and all(
         len(row) == width and sorted(compress(row)) == sorted(
-            gi for gi in range(len(faces)) for _ in range(share[fi][gi]))
-        for fi, row in enumerate(ff))
+            gi for p in pairs_of(f) for gi in sides[p] if gi != fi)
+        for (fi, f), row in zip(enumerate(faces), ff))
     if pinned_inconsistent:
         if not (j1 and j2):
             fail('ugrid-derived-edge-node-ignores-supplied-face-edge-numbering',
@@ -383,7 +469,7 @@ def enc_key(enc: dict, opt: dict) -> tuple:
     return (enc.get('start_index'), enc.get('fill'), enc.get('transposed'), tuple(enc.get('tables', [])),
             enc.get('edge_dim_declared'), enc.get('coords_as', 'vars'), enc.get('face_coords'),
             enc.get('start_index_spelling', 'int'), bool(opt.get('netcdf')), bool(opt.get('drop_edge_id')),
-            enc.get('fill_spec', 'i4big'))
+            enc.get('fill_spec', 'i4big'), opt.get('relook'), str(opt.get('storage')))
 
 
 def is_uniform(faces: list) -> bool:
@@ -397,20 +483,23 @@ QUIRK_OF = {
 }
 
 
-def one_case(ctx, items: list, recipe: dict, expect_valid: set | None, kind: str) -> Observed | None:
+def one_case(ctx, items: list, recipe: dict, expect_valid: set | None, kind: str, to_model: bool = True) -> Observed | None:
     """build, observe, run the oracle, queue the correspondence line.
 
     Where the oracle reports one of the recorded deviations (QUIRK_OF), the line is queued in
     `ctx.c10_flagged` instead: the real output must then equal the primary model or the model with
     exactly that deviation switched on (DESIGN.md section 3); anything else is a disagreement."""
-    built = M.build(recipe)
-    obs = Observed(built)
-    line = M.describe(built.ds, obs.numbering())
+    built, obs, line = observe(recipe)
     desc = {'recipe': recipe, 'kind': kind}
     ctx.count(f'kind:{kind}')
+    if obs.second is not None:
+        ctx.count(f"relook:{recipe['c10']['relook']}")
     raised = oracle(ctx, recipe, built, obs, expect_valid) if expect_valid is not None else set()
     quirks = ''.join(sorted({QUIRK_OF[s] for s in raised if s in QUIRK_OF}))
-    if quirks:
+    if not to_model:
+        # judged by the direct oracle only (medium meshes: the interpreted model needs a second for each)
+        ctx.evaluated(1)
+    elif quirks:
         ctx.c10_flagged.append((line, f'{line} Q={quirks}', obs.line(), desc))
     else:
         items.append((line, obs.line(), desc))
@@ -455,6 +544,10 @@ def product_cases(ctx, items: list, mesh: dict, counter: list) -> None:
             opt['netcdf'] = True
         if declared and not set(tables) & {'edge_node', 'edge_face'} and rng.random() < 0.3:
             opt['drop_edge_id'] = True
+        counter[1] += 1
+        if counter[1] % 4 == 0:
+            # every fourth encoding is normalised twice (second dataset object over the same variables)
+            opt['relook'] = X.RELOOKS[(counter[1] // 4) % len(X.RELOOKS)]
         recipe = {'conv': 'ugrid', 'nodes': mesh['nodes'], 'faces': mesh['faces'], 'edges': edges, 'enc': enc}
         if opt:
             recipe['c10'] = opt
@@ -462,6 +555,8 @@ def product_cases(ctx, items: list, mesh: dict, counter: list) -> None:
         ctx.nontrivial((mesh['name'], enc_key(enc, opt)))
         # the literal statement: identical faces and polygons whatever the encoding
         ident = (obs.tables['fn'], obs.poly)
+        if reference is None and obs.tables['fn'] is None:
+            continue
         if reference is None:
             reference = ident
         elif ident != reference and obs.tables['fn'] is not None:
@@ -469,6 +564,12 @@ def product_cases(ctx, items: list, mesh: dict, counter: list) -> None:
             if ctx.distribution['oracle:encoding-changes-faces'] <= PER_SIGNATURE:
                 ctx.oracle_fail('encoding-changes-faces', {'recipe': recipe, 'expect_valid': sorted(tables)},
                                 'face_node_array / polygons differ from those of the first encoding of the same mesh')
+
+
+def next_relook(ctx) -> str:
+    """the ways of looking twice, walked round-robin (no draw from the random stream)"""
+    ctx.c10_relooks = getattr(ctx, 'c10_relooks', 0) + 1
+    return X.RELOOKS[ctx.c10_relooks % len(X.RELOOKS)]
 
 
 def sampled_cases(ctx, items: list, mesh: dict) -> None:
@@ -504,8 +605,8 @@ def sampled_cases(ctx, items: list, mesh: dict) -> None:
         if rng.random() < 0.3:
             recipe['names'] = {'face_dim': 'nface', 'node_dim': 'nnode', 'edge_dim': 'nedge',
                                'max_dim': 'nmax', 'two_dim': rng.choice(['Two', 'two', 'nv'])}
-        if opt:
-            recipe['c10'] = opt
+        opt['relook'] = next_relook(ctx)
+        recipe['c10'] = opt
         one_case(ctx, items, recipe, set(tables), 'sampled')
         ctx.nontrivial((mesh['name'], enc_key(enc, opt), str(recipe.get('names'))))
     for coords_as, face_coords in itertools.product(['vars', 'coords'], [None, 'vars', 'coords']):
@@ -514,9 +615,9 @@ def sampled_cases(ctx, items: list, mesh: dict) -> None:
                'transposed': rng.random() < 0.3, 'tables': tables, 'edge_dim_declared': True,
                'coords_as': coords_as, 'face_coords': face_coords}
         recipe = {'conv': 'ugrid', 'nodes': mesh['nodes'], 'faces': mesh['faces'],
-                  'edges': M.shuffled_edges(rng, mesh['faces']), 'enc': enc}
+                  'edges': M.shuffled_edges(rng, mesh['faces']), 'enc': enc, 'c10': {'relook': next_relook(ctx)}}
         one_case(ctx, items, recipe, set(tables), 'coords')
-        ctx.nontrivial((mesh['name'], enc_key(enc, {})))
+        ctx.nontrivial((mesh['name'], enc_key(enc, recipe['c10'])))
 
 
 def run(ctx) -> None:
@@ -551,12 +652,13 @@ def run(ctx) -> None:
             ctx.nontrivial((mesh['name'], 'two-dim', two))
     # full encoding product: the uniform mesh (the only one that needs no fill value), one mixed
     # special mesh, the random lattices
-    counter = [0]
+    counter = [0, 0]
     for mesh in [m for m in specials if m['name'] in ('uniform-quads', 'octagon', 'tetrahedron')] + lattices:
         product_cases(ctx, items, mesh, counter)
     ctx.exhaustive = True
     for mesh in lattices:
         sampled_cases(ctx, items, mesh)
+    storage_cases(ctx, items, pool)
     malformed(ctx, items, pool)
     # conclusions of the theorems, evaluated on the model
     for mesh in pool:
@@ -567,6 +669,75 @@ def run(ctx) -> None:
         return
     ctx.check_batch(items)
     settle_flagged(ctx)
+
+
+NOFILL_TABLES = [[], ['face_edge'], ['edge_node'], ['edge_node', 'face_edge']]
+FILL_TABLES = [[], ['edge_face', 'face_face'], ['face_edge'], list(M.TABLES)]
+
+
+def storage_cases(ctx, items: list, pool: list) -> None:
+    """The integer type the file stores its index tables in (`i1 u1 i2 u2 i4 u4 i8`): the same mesh, with the
+    same index base / fill representation / supplied tables, must give the same topology whatever that type
+    is -- in particular where the type is only just wide enough for the indexes (node count squared, index +
+    base, fill value at the edge of the range no longer fit). Small meshes: every type x base x tables;
+    medium meshes (about 200 nodes, so that 16-bit types are at that edge too): the narrowest signed and
+    unsigned type that fits, one wide type, and the float / NaN representation looked at twice."""
+    rng = ctx.rng
+    lattices = [m for m in pool if m['name'].startswith('lattice')]
+    small = [m for m in pool if m['name'] == 'uniform-quads'] + (lattices if ctx.thorough else lattices[:2])
+    dtypes = X.STORAGE_DTYPES if ctx.thorough else [d for d in X.STORAGE_DTYPES if d not in ('i4', 'u4')]
+
+    def case(mesh, edges, dtype, base, fill, spec, sfill, tables, relook=None, to_model=True):
+        ctx.c10_storage = getattr(ctx, 'c10_storage', 0) + 1
+        enc = {'start_index': base, 'fill': fill, 'transposed': ctx.c10_storage % 3 == 2,
+               'tables': list(tables), 'edge_dim_declared': True}
+        if fill == 'attr':
+            enc['fill_spec'] = spec
+        opt = {}
+        if dtype is not None:
+            opt['storage'] = {'dtype': dtype, 'fill': sfill}
+        if relook:
+            opt['relook'] = relook
+        recipe = {'conv': 'ugrid', 'nodes': mesh['nodes'], 'faces': mesh['faces'], 'edges': edges, 'enc': enc, 'c10': opt}
+        if dtype is not None and 'Mesh2_face_nodes' not in build(recipe).extra['storage_cast']:
+            ctx.count('storage:face-node-table-does-not-fit')
+            return
+        one_case(ctx, items, recipe, set(tables), 'storage', to_model)
+        ctx.count(f'storage:{dtype or "float"}')
+        ctx.nontrivial((mesh['name'], 'storage', enc_key(enc, opt)))
+
+    for mesh in small:
+        uniform = is_uniform(mesh['faces'])
+        edges = M.shuffled_edges(rng, mesh['faces'])
+        for dtype, base in itertools.product(dtypes, (0, 1)):
+            if uniform:
+                for tables in NOFILL_TABLES:
+                    case(mesh, edges, dtype, base, 'none', None, 'keep', tables)
+            for k, tables in enumerate(FILL_TABLES):
+                if (k + base) % 2 == 0:
+                    case(mesh, edges, dtype, base, 'attr', 'i4big', 'max', tables, next_relook(ctx) if k == 1 else None)
+                else:
+                    case(mesh, edges, dtype, base, 'attr', 'low', 'keep', tables)
+    sizes = [13, 14] + ([15, 16] if ctx.thorough else [])
+    n = rng.choice(sizes)
+    grid = X.uniform_grid(rng, n)
+    mixed = X.mixed_grid(rng, rng.choice(sizes))
+    for mesh in (grid, mixed):
+        nodes = len(mesh['nodes'])
+        edges = M.shuffled_edges(rng, mesh['faces'])
+        uniform = is_uniform(mesh['faces'])
+        # the narrowest signed / unsigned type that holds every index (and base, and a fill value), a wide one
+        signed = 'i1' if nodes + 1 < 127 else 'i2'
+        unsigned = 'u1' if nodes + 1 < 255 else 'u2'
+        combos = [(signed, 0), (unsigned, 1), (unsigned, 0), ('i8', 1)] + ([(signed, 1), ('i8', 0)] if ctx.thorough else [])
+        for k, (dtype, base) in enumerate(combos):
+            # (the first of each mesh also goes through the model, the others are judged by the oracle alone)
+            if uniform:
+                case(mesh, edges, dtype, base, 'none', None, 'keep', [], to_model=k == 0)
+            else:
+                case(mesh, edges, dtype, base, 'attr', 'i4big', 'max', [], to_model=k == 0)
+        case(mesh, edges, signed, 0, 'attr', 'i4big', 'max', ['edge_face', 'face_face'], to_model=False)
+        case(mesh, edges, None, 1, 'nan', None, None, ['edge_face'], next_relook(ctx), to_model=False)
 
 
 def start_index_cases(ctx, items: list) -> None:
@@ -672,13 +843,13 @@ def malformed(ctx, items: list, pool: list) -> None:
 
 def one_case_truncated(ctx, items: list, recipe: dict) -> None:
     """supplied edge_node table without its last edge (the edge dimension shrinks accordingly)"""
-    built = M.build(recipe)
+    built = build(recipe)
     ds = built.ds
     edim = built.extra['names']['edge_dim']
     ds = ds.isel({edim: slice(0, ds.sizes[edim] - 1)})
     built.ds = ds
-    obs = Observed(built)
-    items.append((M.describe(ds, obs.numbering()), obs.line(), {'recipe': recipe, 'kind': 'truncated-edge-table'}))
+    built, obs, line = observe(recipe, built)
+    items.append((line, obs.line(), {'recipe': recipe, 'kind': 'truncated-edge-table'}))
     ctx.count('kind:truncated-edge-table')
     ctx.nontrivial(('truncated', tuple(recipe['enc']['tables'])))
 
@@ -699,9 +870,12 @@ def run_one(ctx, inp: dict) -> dict:
             one_case_truncated(ctx, items, recipe)
             line, impl, _ = items[0]
         else:
-            built = M.build(recipe)
-            obs = Observed(built)
-            line, impl = M.describe(built.ds, obs.numbering()), obs.line()
+            built, obs, line = observe(recipe)
+            impl = obs.line()
+            if obs.second is not None:
+                out['impl[second look]'] = obs.second.line()
+            if built.extra.get('storage_cast') is not None:
+                out['tables held as ' + recipe['c10']['storage']['dtype']] = ','.join(built.extra['storage_cast']) or 'none'
             for k, e in obs.exc.items():
                 out[f'raised[{k}]'] = f'{type(e).__name__}: {e}'
             if 'expect_valid' in inp:
